@@ -252,5 +252,5 @@ def step_routing(vc):
 from pyvc.harness import share as _share, REGISTRY as _REG  # noqa: E402
 from contracts import C02 as _C02  # noqa: E402,F401
 for _h in list(_REG["C02"]):
-    if _h.name.startswith("collect"):
+    if _h.name.startswith("collect") or _h.name == "execute":  # (execute: one record set and one pointing record per tasked sensor of a job)
         _share("C02", _h.name, "C08")
